@@ -36,7 +36,7 @@ func newFaultRun(s *simrt.Sim, target string, classes []string) *faultRun {
 	fr := &faultRun{s: s, target: target}
 	fr.class = classes[s.Choose(len(classes))]
 	if fr.class == "inflate-prefix" {
-		fr.huge = s.Chance(1, 96)
+		fr.huge = s.Chance(1, 400)
 	}
 	return fr
 }
